@@ -27,15 +27,24 @@ class IOBuilder(object):
             return tuple(const_str(x) for x in e.value.elts)
         if isinstance(e, ast.Name):
             if e.id in env: return env[e.id]
+        if isinstance(e, ast.IfExp):
+            a, b = self.kinds_of(fi, e.body, env), self.kinds_of(fi, e.orelse, env)
+            if a and b: return tuple(a) + tuple(x for x in b if x not in a)
+        if isinstance(e, ast.BinOp) and isinstance(e.op, ast.Add):
+            a, b = self.kinds_of(fi, e.left, env), self.kinds_of(fi, e.right, env)
+            if a and b: return tuple(x + y for x in a for y in b)
         return None
 
     def local_kind_env(self, fi):
-        """names bound to record kinds inside the function"""
+        """names bound to record kinds inside the function (a name bound in several places - the two arms of an if - stands
+        for all of them)"""
         env = {}
         for n in walk_no_nested(fi.node):
             if isinstance(n, ast.Assign) and len(n.targets) == 1 and isinstance(n.targets[0], ast.Name):
                 k = self.kinds_of(fi, n.value, env)
-                if k: env[n.targets[0].id] = k
+                if k:
+                    old_ = env.get(n.targets[0].id, ())
+                    env[n.targets[0].id] = tuple(old_) + tuple(x for x in k if x not in old_)
             # timing_fmt += '_toughreact'
             if isinstance(n, ast.AugAssign) and isinstance(n.target, ast.Name) and isinstance(n.op, ast.Add) \
                and const_str(n.value) and n.target.id in env:
